@@ -337,6 +337,9 @@ def gen_config(r: random.Random, optimizer: str, validate, *, cycles=(1, 12), pe
         p["fitness_error"] = r.choice([None, None, None, 0.0, 1e-3, 0.1, 0.5, 10.0])
         if r.random() < 0.25:
             p["early_stopping"] = {"patience": r.randrange(1, 5), "min_delta": r.choice([1e-4, 1e-2, 1.0])}
+            if r.random() < 0.12:
+                # the model's fields are optional: unset ones mean the documented defaults (1, 1e-4)
+                p["early_stopping"][r.choice(["patience", "min_delta"])] = None
     else:
         p["fitness_error"] = None
     perturbed = []
@@ -362,7 +365,7 @@ def gen_config(r: random.Random, optimizer: str, validate, *, cycles=(1, 12), pe
 
 
 # ------------------------------------------------------------------------- faults, schedules
-STREAM_FAULTS = ["stream_bias_low", "stream_bias_high", "index_extreme", "index_repeat"]
+STREAM_FAULTS = ["stream_bias_low", "stream_bias_high", "index_extreme", "index_repeat", "objective_scribbles"]
 POOL_FAULTS = ["objective_slow", "stalled_worker", "ac_order"]
 
 
@@ -387,6 +390,8 @@ def gen_faults(r: random.Random, mode: str, workers: int, horizon: int = 3000, p
             out.append({"kind": k, "widx": r.randrange(0, max(1, workers)), "slow": r.randrange(3, 20)})
         elif k == "ac_order":
             out.append({"kind": k, "mode": r.choice(["reverse", "identity"])})
+        elif k == "objective_scribbles":
+            out.append({"kind": k})
     return out
 
 
